@@ -401,6 +401,7 @@ def anim_case(case, ctx):
                 model.apply(j, mm)
         if mode in ("frames", "gif", "creator", "creator_second_episode", "solver"):
             records = []
+            extras = []
             inner = get_partial_gantt_chart_plotter()
 
             def wrapper(schedule, makespan=None, available_operations=None, current_time=None):
@@ -409,6 +410,7 @@ def anim_case(case, ctx):
                 bars = sorted(b[:4] for b in bars_of(fig.axes[0]))
                 xlim = tuple(float(x) for x in fig.axes[0].get_xlim())
                 records.append((rows, bars, makespan, xlim))
+                extras.append((None if available_operations is None else sorted(fp.jp(o) for o in available_operations), current_time))
                 return fig
 
             if mode == "solver":
@@ -418,7 +420,7 @@ def anim_case(case, ctx):
             elif mode == "frames":
                 frames_dir = os.path.join(tmp, "frames_07")
                 os.mkdir(frames_dir)
-                create_gantt_chart_frames(frames_dir, instance, None, wrapper, True, history)
+                create_gantt_chart_frames(frames_dir, instance, None, wrapper, len(history) % 2 == 0, history)
                 files = sorted(os.listdir(frames_dir))
                 ctx.check(len(files) == n, "frame-files", f"{len(files)} frame files for {n} operations")
             elif mode == "gif":
@@ -427,6 +429,7 @@ def anim_case(case, ctx):
                     gif_path=os.path.join(tmp, "out_1.gif"),
                     plot_function=wrapper,
                     schedule_history=history,
+                    plot_current_time=len(history) % 2 == 1,
                 )
                 ctx.check(os.path.exists(os.path.join(tmp, "out_1.gif")), "gif-missing", "no GIF written")
                 ctx.check(not os.path.exists(os.path.join(tmp, "out_1_frames")), "frames-not-removed", "frames dir left behind")
@@ -455,6 +458,22 @@ def anim_case(case, ctx):
                 ctx.check(makespan == mk, "frame-makespan", f"frame {k}: plotter was given makespan {makespan}, final makespan is {mk}")
                 if mk > 0:
                     ctx.check(xlim == (0.0, float(mk)), "frame-axis", f"frame {k}: x axis {xlim}, expected (0, {mk})")
+                if mode in ("frames", "gif") and k <= len(extras):
+                    # the replay dispatcher (no filter) is in the state after k dispatches
+                    mk_model = ref(inst)
+                    for (j_, p_, m_, _s, _e) in model.order[:k]:
+                        mk_model.apply(j_, m_)
+                    avail_k, now_k = extras[k - 1]
+                    ctx.check(
+                        avail_k == sorted(mk_model.ready()),
+                        "frame-available-operations",
+                        f"frame {k}: plotter was given available operations {avail_k}, the state after {k} dispatches has {sorted(mk_model.ready())}",
+                    )
+                    ctx.check(
+                        now_k is None or now_k == mk_model.min_start(mk_model.ready()),
+                        "frame-current-time",
+                        f"frame {k}: plotter was given current time {now_k}, expected {mk_model.min_start(mk_model.ready())}",
+                    )
             # (the number of frames stored in these GIFs is not asserted: the
             # writer merges consecutive identical frames, e.g. zero-width bars)
             if mode == "creator" and n >= 2:
